@@ -320,6 +320,8 @@ class ReadDTCInformation(BaseService):
             
             if isinstance(dtc_class, Dtc.DtcClass):
                 dtc_class = dtc_class.get_byte_as_int()
+            tools.validate_int(dtc_class, min=0, max=0x1F, name='DTC class')
+            tools.validate_int(severity_mask, min=0, max=0xFF, name='Severity mask')
             severity_mask |= (dtc_class & 0x1F)
 
         if dtc is not None and isinstance(dtc, Dtc):
